@@ -31,6 +31,8 @@ OPTS = [DEFAULT, DEFAULT, 0, HS, GB | DEFAULT, HS | UN | UR | CR_, HOSTN | UN | 
 
 F_AUTH, F_BREAKPHP, F_FIXROOT, F_CHECKLOCAL, F_HTTPS, F_ERRSAVED, F_H2, F_H2EXT, F_UPGRADE, F_TEMP, \
     F_STREAM, F_HTTP10 = 1, 2, 4, 8, 16, 32, 64, 128, 256, 512, 1024, 2048
+F_STREAM2 = 4096            # server.stream-request-body = 2 (stream + minimal buffering)
+F_STREAMING = F_STREAM | F_STREAM2
 
 STREAM_OPS = ("fcgi", "scgi", "uwsgi", "proxy")
 OPS = ("env", "cgi") + STREAM_OPS
@@ -563,33 +565,54 @@ def parse_obs(out):
     return p, r
 
 
+def h2_frames(t):
+    """(data bytes, Pad Length or -1, END_STREAM, padding octets present) per frame of an h2data line"""
+    body, pos, out = gen_body(t[4]), 0, []
+    for f in t[5].split(","):
+        p = f.split(".")
+        n = min(int(p[0]), len(body) - pos)
+        out.append((body[pos:pos + n], int(p[1]), p[2] == "1", len(p) < 4))
+        pos += n
+    return body, out
+
+
 def h2_oracle(line, out):
     """HTTP/2 DATA: the request body is the concatenation of the frames' data (padding removed), whatever
-    the segmentation of the byte stream; a well-formed body is accepted without RST_STREAM"""
+    the segmentation of the byte stream; a well-formed body is accepted without RST_STREAM; a body is
+    reported complete to the backend side only when exactly the announced amount arrived"""
     t = line.split(" ")
-    m = re.match(r"h2data state=(\w+) len=(-?\d+) rst=(\d+) goaway=(\d+) rq=(\d+) out=(\S+)$", out)
+    m = re.match(r"h2data state=(\w+) len=(-?\d+) rst=(\d+) goaway=(\d) st=(\d+) rb=(\S+) rq=(\d+) out=(\S+)$", out)
     if not m:
         return "h2 data: unreadable observation || " + out[:60]
-    cl, body = int(t[1]), gen_body(t[2])
-    frames = [[int(x) for x in f.split(".")] for f in t[3].split(",")]
-    got = C.unhx(m.group(6))
-    if got != body[:len(got)]:
-        return "h2 data: request body contains bytes the client did not send as data || at offset %d" % next(
-            i for i in range(len(got)) if i >= len(body) or got[i] != body[i])
-    total = min(sum(f[0] for f in frames), len(body))
-    wellformed = all(f[2] == 0 for f in frames[:-1]) and frames[-1][2] == 1 and cl in (-1, total) \
-        and all(f[1] < 256 for f in frames)
+    cl, maxkb = int(t[1]), int(t[2])
+    body, frames = h2_frames(t)
+    got = C.unhx(m.group(8))
+    plain = all(f[3] for f in frames)          # every announced padding is really there
+    if plain:
+        # the body is the data of the accepted frames, in order (a refused frame is dropped as a whole)
+        reach = {0}
+        for d, _, _, _ in frames:
+            reach |= {p + len(d) for p in reach if got[p:p + len(d)] == d}
+        if len(got) not in reach or (m.group(5) == "0" and m.group(3) == "0" and got != body[:len(got)]):
+            return "h2 data: request body contains bytes the client did not send as data"
+    total = sum(len(f[0]) for f in frames)
+    wellformed = plain and all(not f[2] for f in frames[:-1]) and frames[-1][2] and cl in (-1, total) \
+        and (maxkb == 0 or total <= maxkb * 1024)
     if wellformed:
-        if int(m.group(3)) or int(m.group(4)):
-            return "h2 data: well-formed request body answered with RST_STREAM / GOAWAY"
+        if int(m.group(3)) or m.group(4) != "0" or m.group(5) != "0":
+            return "h2 data: well-formed request body answered with RST_STREAM / GOAWAY / error status"
         if len(got) != total or int(m.group(2)) != total:
             return "h2 data: request body length differs from the data sent || %d / %s of %d" % (len(got), m.group(2), total)
-        if int(m.group(5)):
+        if int(m.group(7)):
             return "h2 data: frame bytes left unconsumed"
-        if m.group(1) != "hcr":
-            return "h2 data: END_STREAM did not half-close the stream"
-    elif cl >= 0 and len(got) > cl:
+        if m.group(1) != "hcr" or m.group(6) != "ready":
+            return "h2 data: complete body not reported ready / END_STREAM did not half-close the stream"
+    if cl >= 0 and len(got) > cl:
         return "h2 data: more body accepted than Content-Length"
+    if m.group(6) == "ready" and cl >= 0 and len(got) != cl:
+        return "h2 data: body reported complete with other than Content-Length bytes"
+    if m.group(6) == "ready" and plain and len(got) != int(m.group(2)):
+        return "h2 data: body reported complete but its length is not the request body length"
     return None
 
 
@@ -830,7 +853,7 @@ def gw_oracle(c, sh, res):
     decl = declared_length(c, sh)
     body = c.body()
     if st:
-        if st == 411 and decl is None and c.fl & F_STREAM and (op != "proxy" or c.fl & F_HTTP10):
+        if st == 411 and decl is None and c.fl & F_STREAMING and (op != "proxy" or c.fl & F_HTTP10):
             return None         # CGI-style gateway / HTTP/1.0 backend, streamed chunked body: Length Required
         if st in (400, 431) and len(c.head) > 60000:
             return None         # variables do not fit the protocol's size fields
@@ -901,10 +924,13 @@ def classify(line, out):
         return "url:%s:%s" % (t[1], out.split(" ")[0])
     if t[0] == "h2data":
         tt = line.split(" ")
-        frames = tt[3].split(",")
-        return "h2data:%s:cl%s:f%d:pad%d:seg%s:b%s" % (
-            " ".join(out.split(" ")[1:4:2]), "-" if tt[1] == "-1" else "+", min(len(frames), 5),
-            any(f.split(".")[1] != "-1" for f in frames), tt[4].split(",")[0] if len(tt[4]) < 6 else "mix",
+        frames = tt[5].split(",")
+        o = dict(x.split("=", 1) for x in out.split(" ")[1:] if "=" in x)
+        return "h2data:%s,rst%s,ga%s,st%s,%s:cl%s:max%d:cons%s:f%d:pad%d%s:seg%s:b%s" % (
+            o.get("state"), min(int(o.get("rst", "0")), 2), o.get("goaway"), o.get("st"), o.get("rb"),
+            "-" if tt[1] == "-1" else "+", tt[2] != "0", tt[3], min(len(frames), 5),
+            any(f.split(".")[1] != "-1" for f in frames), "x" if any(f.endswith(".x") for f in frames) else "",
+            tt[6].split(",")[0] if len(tt[6]) < 6 else "mix",
             size_class(sum(int(f.split(".")[0]) for f in frames)))
     parsed, res = parse_obs(out)
     if parsed is None:
@@ -915,14 +941,14 @@ def classify(line, out):
         if not m:
             return "%s:%s" % (t[0], res[:8])
         c = Case(line.split(" P ")[0])
-        return "%s:st%s:gs%s:d%s:fl%x:b%s:%s:steps%d" % (t[0], m.group(2), m.group(3), m.group(4), fl & (F_STREAM | F_HTTP10 | F_CHECKLOCAL),
+        return "%s:st%s:gs%s:d%s:fl%x:b%s:%s:steps%d" % (t[0], m.group(2), m.group(3), m.group(4), fl & (F_STREAMING | F_HTTP10 | F_CHECKLOCAL),
                                                      size_class(len(c.body())), c.bodytok[0], min(len(c.sched), 6))
     if t[0] == "cgibody":
         c = Case(line.split(" P ")[0])
         delivered, fixed, done = schedule(c)
-        return "cgibody:%s:fl%x:b%s:seg%d" % (res[:13], fl & (F_TEMP | F_STREAM), size_class(delivered), min(len(c.sched), 4))
+        return "cgibody:%s:fl%x:b%s:seg%d" % (res[:13], fl & (F_TEMP | F_STREAMING), size_class(delivered), min(len(c.sched), 4))
     kind = res.split(" ")[0]
-    key = "%s:%s:fl%x" % (t[0], kind if not kind.startswith("st=") else kind, fl & (F_AUTH | F_CHECKLOCAL | F_H2EXT | F_UPGRADE | F_TEMP | F_STREAM | F_HTTP10))
+    key = "%s:%s:fl%x" % (t[0], kind if not kind.startswith("st=") else kind, fl & (F_AUTH | F_CHECKLOCAL | F_H2EXT | F_UPGRADE | F_TEMP | F_STREAMING | F_HTTP10))
     if kind == "ok":
         c = Case(line.split(" P ")[0])
         delivered, fixed, done = schedule(c)
@@ -940,7 +966,7 @@ PATHS = [b"/app", b"/app/", b"/app/x/y", b"/app.php", b"/app.php/info/more", b"/
 QUERIES = [b"", b"", b"?", b"?a=1", b"?a=1&b=2", b"?a?b", b"?a=1?b=2?c", b"??", b"?a%3fb", b"?a+b%20c", b"?a#frag", b"#frag?x",
            b"?x=/../y", b"?%00"[:1] + b"a=%41", b"?q=caf%C3%A9", b"?a=b=c;d"]
 HOSTS_ = [b"www.example.org", b"Example.ORG", b"example.org:8080", b"127.0.0.1", b"a-b.c:80", b"ex.org."]
-EXTS = [b"/app", b"/app", b"/", b".php", b"/app/", b"/cgi-bin/", b".cgi", b"/app.php", b"/a"]
+EXTS = [b"/", b"/", b"/", b"/", b"/app", b"/app", b"/app", b".php", b"/app/", b"/cgi-bin/", b".cgi", b"/app.php", b"/a", b"/a"]
 FIELDS = [(b"Accept", [b"*/*", b"text/html, */*;q=0.1"]), (b"User-Agent", [b"x/1.0 (y; z)"]),
           (b"Cookie", [b"a=1", b"b=2; c=3"]), (b"X-Foo", [b"bar", b"a b", b"\"q\""]), (b"X_Foo", [b"under"]),
           (b"x-foo", [b"lower"]), (b"X.Foo", [b"dot"]), (b"Content-Type", [b"text/plain", b"application/x-www-form-urlencoded"]),
@@ -1004,6 +1030,11 @@ def gen_head(rng, body_len=None, chunked=False, extra=(), v11=False):
         else:
             out += k + b": " + val + b"\r\n " + b"folded\r\n"
     return out + b"\r\n"
+
+
+def stream_flag(rng):
+    """server.stream-request-body 1 or 2"""
+    return F_STREAM if rng.random() < 0.6 else F_STREAM2
 
 
 def gen_cfg(rng, op):
@@ -1084,22 +1115,22 @@ def gen_cases(ctx):
             elif kind < 0.8:
                 # chunked request body: collected first (c<n>), or streamed to the backend
                 n = rng.choice(SMALL_SIZES)
-                head = gen_head(rng, chunked=True)
+                head = gen_head(rng, chunked=True, v11=True)
                 cfg["body"] = body_tok(rng, n)
                 if rng.random() < 0.5:
                     cfg["sched"] = "c%d" % n
                 else:
-                    cfg["fl"] |= F_STREAM
+                    cfg["fl"] |= stream_flag(rng)
                     cfg["sched"] = rand_sched(rng, n, False) + (",e" if rng.random() < 0.9 else "")
             else:
                 head = gen_head(rng)
             if rng.random() < 0.1:
                 cfg["fl"] |= F_TEMP
             if rng.random() < 0.15:
-                cfg["fl"] |= F_STREAM
+                cfg["fl"] |= stream_flag(rng)
         else:
             n = rng.choice(SMALL_SIZES)
-            head = gen_head(rng, body_len=n) if rng.random() < 0.4 else gen_head(rng, chunked=rng.random() < 0.1)
+            head = gen_head(rng, body_len=n) if rng.random() < 0.4 else gen_head(rng, chunked=rng.random() < 0.1, v11=True)
         lines.append(mkline(op, head, **fix_cfg(cfg, op)))
     # 2. PARAMS / vars block around the 65535 limit, 4-byte name lengths
     for pad in list(range(63800, 65300, 97 if q else 13)) + [65300 + 7 * i for i in range(0, 30 if q else 200)]:
@@ -1127,11 +1158,11 @@ def gen_cases(ctx):
                 cfg["fl"] &= ~(F_H2EXT | F_AUTH)
                 cfg["ext"] = b"/"
                 chunked = rng.random() < 0.3
-                head = gen_head(rng, body_len=None if chunked else n, chunked=chunked)
+                head = gen_head(rng, body_len=None if chunked else n, chunked=chunked, v11=chunked)
                 cfg["body"] = body_tok(rng, n)
                 if chunked:
                     if op == "proxy" and rng.random() < 0.6:
-                        cfg["fl"] |= F_STREAM
+                        cfg["fl"] |= stream_flag(rng)
                         cfg["sched"] = rand_sched(rng, n, False) + ",e"
                     else:
                         cfg["sched"] = "c%d" % n
@@ -1148,13 +1179,13 @@ def gen_cases(ctx):
         chunked = rng.random() < 0.25
         head = gen_head(rng, body_len=None if chunked else n, chunked=chunked, v11=chunked)
         cfg["body"] = body_tok(rng, n)
-        cfg["fl"] &= ~(F_H2EXT | F_STREAM | F_TEMP)
+        cfg["fl"] &= ~(F_H2EXT | F_STREAMING | F_TEMP)
         if rng.random() < 0.5:
             cfg["fl"] |= F_TEMP
         if rng.random() < 0.4:
-            cfg["fl"] |= F_STREAM
+            cfg["fl"] |= stream_flag(rng)
         # (not streaming: the script is started once the body is complete, so no partial deliveries)
-        cfg["sched"] = "c%d" % n if chunked else rand_sched(rng, n, bool(cfg["fl"] & F_STREAM))
+        cfg["sched"] = "c%d" % n if chunked else rand_sched(rng, n, bool(cfg["fl"] & F_STREAMING))
         lines.append(mkline("cgibody", head, **fix_cfg(cfg, "cgi")))
     return lines
 
@@ -1179,7 +1210,7 @@ def gw_cases(ctx):
         cfg["fl"] &= ~(F_AUTH | F_H2 | F_H2EXT | F_UPGRADE | F_TEMP)
         mode = rng.random()
         if mode < 0.45:
-            cfg["fl"] |= F_STREAM
+            cfg["fl"] |= stream_flag(rng)
         chunked = rng.random() < 0.45
         seed = rng.randint(0, 99999)
         head = gen_head(rng, body_len=None if chunked else n, chunked=chunked, v11=chunked)
@@ -1217,7 +1248,8 @@ def gw_cases(ctx):
 
 
 def h2_cases(ctx):
-    """HTTP/2 request bodies: DATA frame sizes, padding, END_STREAM placement, Content-Length, segmentation"""
+    """HTTP/2 request bodies: DATA frame sizes, padding, END_STREAM placement, Content-Length, max-request-size,
+    a streaming consumer, segmentation"""
     rng = ctx.rng
     lines = []
     segs = ["0", "0", "9", "9", "10", "1", "2", "7", "16384", "8192", "4096", "9,1", "9,5000", "3,6,1"]
@@ -1236,19 +1268,29 @@ def h2_cases(ctx):
             d = min(left, rng.choice([0, 1, 2, 9, 100, 1000, 8192, room, room]) if left else 0)
             left -= d
             last = left == 0 and (rng.random() < 0.8 or len(frames) > 40)
-            frames.append([d, pad, 1 if last else 0])
+            frames.append([d, pad, 1 if last else 0, ""])
             if last:
                 break
         cl = -1 if rng.random() < 0.4 else n
         k = rng.random()
-        if k < 0.06:
-            cl = n + rng.choice([1, -1, 5]) if n else 1           # Content-Length mismatch
-            cl = max(cl, 0)
-        elif k < 0.10 and len(frames) > 1:
-            frames[rng.randrange(len(frames) - 1)][2] = 1         # END_STREAM too early
+        if k < 0.08:
+            cl = max(n + rng.choice([1, -1, 5, -5, 100]), 0) if n else 1   # Content-Length mismatch
+        elif k < 0.12 and len(frames) > 1:
+            frames[rng.randrange(len(frames) - 1)][2] = 1                  # END_STREAM too early
+        elif k < 0.16:
+            f = rng.choice(frames)                                         # Pad Length without the padding octets
+            if f[0] < 16384:                                               # (frame stays within SETTINGS_MAX_FRAME_SIZE)
+                if f[1] < 0:
+                    f[1] = rng.choice([0, 1, 3, 200])
+                f[3] = ".x"
+        maxkb = 0
+        if rng.random() < 0.15:
+            maxkb = rng.choice([1, 1, 4, 16, 64, 100])
+        cons = 1 if rng.random() < 0.35 else 0
         seg = rng.choice(segs) if rng.random() < 0.8 else ",".join(str(rng.choice([1, 2, 9, 10, 100, 5000, 16393])) for _ in range(rng.randint(2, 5)))
         body = "r%d.%d" % (n, rng.randint(0, 99999)) if n else "-"
-        lines.append("h2data %d %s %s %s" % (cl, body, ",".join("%d.%d.%d" % tuple(f) for f in frames), seg))
+        lines.append("h2data %d %d %d %s %s %s" % (cl, maxkb, cons, body,
+                                                  ",".join("%d.%d.%d%s" % tuple(f) for f in frames), seg))
     return lines
 
 
